@@ -290,9 +290,77 @@ def _walk_ids(v):
             ids.add(id(x))
             total += len(x)
             stack.extend(x)
+        elif isinstance(x, tuple):
+            total += len(x)   # (immutable itself, so not an id that matters; its members may be mutable)
+            stack.extend(x)
         else:
             leaves += 1
     return ids, (len(ids), leaves, total)
+
+
+def _plain(v):
+    if isinstance(v, dict):
+        return {k: _plain(x) for k, x in v.items()}
+    if isinstance(v, (list, tuple)):
+        return [_plain(x) for x in v]
+    return v
+
+
+def run_tuple_values(ctx):
+    """Operation values that are (or hold) tuples with mutable members - arrays as far as the library is concerned.  The
+    list-of-dicts and builder forms, applied twice, a later operation writing into a member: against the model run on
+    the same operations with lists for tuples; patch, caller's list and results must stay independent."""
+    import jsonpath
+
+    r = ctx.rng
+    vals = [({"id": 1, "tags": []}, {"id": 2}), ([], [1]), {"t": ([], {"k": []})}, [("a", [1])], ((), ([],)), ({"deep": ({"x": []},)},)]
+    for v in vals:
+        for opname in ("add", "replace", "addne", "addap"):
+            first = {"op": opname, "path": "/rows" if opname != "replace" else "/old", "value": v}
+            pv = _plain(v)
+            # a path to some mutable member inside the value
+            sub = None
+            stack = [("", v)]
+            while stack and sub is None:
+                pth, x = stack.pop()
+                if isinstance(x, list) and pth:      # (a tuple itself cannot be written into; its list / dict members can)
+                    sub = pth + "/-"
+                elif isinstance(x, dict) and pth:
+                    sub = pth + "/added"
+                if isinstance(x, dict):
+                    stack.extend((pth + "/" + k, y) for k, y in x.items())
+                elif isinstance(x, (list, tuple)):
+                    stack.extend((pth + "/%d" % i, y) for i, y in enumerate(x))
+            base = first["path"]
+            ops = [first] + ([{"op": "add", "path": base + sub, "value": "seen"}] if sub else []) + [{"op": "test", "path": "/x", "value": 1}]
+            doc = {"x": 1, "old": 0}
+            try:
+                want = canon(rp.apply_patch(copy.deepcopy(doc), _plain(ops)))
+            except (rp.PatchFail, rp.Unspecified):
+                continue
+            for form in ("dicts", "builder"):
+                ctx.evaluation()
+                caller = copy.deepcopy(ops)
+                caller_before = canon(_plain(caller))
+                patch = jsonpath.JSONPatch(caller) if form == "dicts" else build_chain(caller, jsonpath)
+                asd_before = canon(_plain(patch.asdicts()))
+                results = []
+                case = {"kind": "tuple-values"}
+                for k in range(3):
+                    o = impl.call(CONTRACT["orig"] if "orig" in CONTRACT else type(patch).apply, patch, copy.deepcopy(doc))
+                    if not o.ok or canon(_plain(o.value)) != want:
+                        ctx.violation("repeated-application-differs:%d:tuple-values" % (k + 1), case, {"form": form, "ops": repr(ops)[:300], "application": k + 1, "got": o.desc() if not o.ok else canon(_plain(o.value))[:300], "model": want[:300]})
+                        return
+                    results.append(o.value)
+                ctx.count("tuple_value_applications", 3)
+                if canon(_plain(caller)) != caller_before or canon(_plain(patch.asdicts())) != asd_before:
+                    ctx.violation("patch-or-caller-value-modified-by-apply:tuple-values", case, {"form": form, "ops": repr(ops)[:300]})
+                    return
+                own = _walk_ids([op.get("value") for op in caller])[0] | _walk_ids([getattr(op, "value", None) for op in patch.ops])[0]
+                rids = [_walk_ids(x)[0] for x in results]
+                if any(ri & own for ri in rids) or any(rids[i] & rids[j] for i in range(3) for j in range(i)):
+                    ctx.violation("results-share-structure:tuple-values", case, {"form": form, "ops": repr(ops)[:300]})
+                    return
 
 
 def run_deep_values(ctx):
@@ -434,6 +502,7 @@ def run(spec, ctx):
         return
     if spec.get("kind") == "deep-values":
         run_deep_values(ctx)
+        run_tuple_values(ctx)
         return
     if spec.get("kind") == "flags":
         from rt import flag_history
@@ -472,5 +541,8 @@ def replay(case, ctx):
         return
     if case.get("kind") == "deep-values":
         run_deep_values(ctx)
+        return
+    if case.get("kind") == "tuple-values":
+        run_tuple_values(ctx)
         return
     check(ctx, case["doc"], case["ops"], True)
